@@ -755,4 +755,97 @@ theorem token_step {c : Cfg} (s : St) (a : Act) (s' : St) (h : s.token = true) (
   cases a <;> simp only [step] at hs <;> (repeat' split at hs) <;> (try (simp at hs)) <;>
     (try (obtain ⟨_, hs⟩ := hs)) <;> (try subst hs) <;> simp_all [arm, enqueue]
 
+/-! ### counting and ordering in the expected trace shape -/
+
+def Ev.isDisc (i : Nat) : Ev → Bool
+  | .disconnect j _ => j == i
+  | _ => false
+
+def Ev.isConn (i : Nat) : Ev → Bool
+  | .connect j => j == i
+  | _ => false
+
+def Ev.isDisconnect : Ev → Bool
+  | .disconnect _ _ => true
+  | _ => false
+
+def Ev.isConnect : Ev → Bool
+  | .connect _ => true
+  | _ => false
+
+theorem count_disc_connects (i k : Nat) : (connects k).countP (Ev.isDisc i) = 0 := by
+  simp [connects, List.countP_eq_zero, Ev.isDisc]
+
+theorem count_conn_disconnects (i n : Nat) : (disconnects n).countP (Ev.isConn i) = 0 := by
+  simp [disconnects, List.countP_eq_zero, Ev.isConn]
+
+theorem count_disc_disconnects (i n : Nat) : (disconnects n).countP (Ev.isDisc i) = if i < n then 1 else 0 := by
+  induction n with
+  | zero => simp [disconnects]
+  | succ n ih =>
+    have : disconnects (n + 1) = disconnects n ++ [.disconnect n true] := by
+      simp [disconnects, List.range_succ]
+    rw [this, List.countP_append, ih]
+    by_cases h1 : i < n
+    · have : ¬ n = i := by omega
+      simp [h1, Ev.isDisc, this]; omega
+    · by_cases h2 : n = i
+      · subst h2; simp [Ev.isDisc]
+      · have : ¬ i < n + 1 := by omega
+        simp [h1, h2, Ev.isDisc, this]
+
+theorem count_conn_connects (i k : Nat) : (connects k).countP (Ev.isConn i) = if i < k then 1 else 0 := by
+  induction k with
+  | zero => simp [connects]
+  | succ n ih =>
+    rw [connects_succ, List.countP_append, ih]
+    by_cases h1 : i < n
+    · have : ¬ n = i := by omega
+      simp [h1, Ev.isConn, this]; omega
+    · by_cases h2 : n = i
+      · subst h2; simp [Ev.isConn]
+      · have : ¬ i < n + 1 := by omega
+        simp [h1, h2, Ev.isConn, this]
+
+/-- In `connects k ++ cancel :: disconnects n` nothing that is a disconnect comes before a connect
+or before the cancel, and every disconnect carries `true`. -/
+theorem shape_order (k n : Nat) :
+    ∀ pre e post, connects k ++ .cancel :: disconnects n = pre ++ e :: post → e.isDisconnect = true →
+      (∀ x ∈ post, x.isConnect = false ∧ x ≠ .cancel) ∧ .cancel ∈ pre ∧ (∀ j, j < k → .connect j ∈ pre) ∧
+      ∃ i, e = .disconnect i true := by
+  intro pre e post heq he
+  -- `e` is not in the `connects k ++ [cancel]` part
+  have hsplit := List.append_eq_append_iff.mp heq
+  have hc : ∀ x ∈ connects k, x.isDisconnect = false := by
+    intro x hx; simp only [connects, List.mem_map] at hx; obtain ⟨j, _, rfl⟩ := hx; rfl
+  have hd : ∀ x ∈ disconnects n, x.isConnect = false ∧ x ≠ .cancel ∧ ∃ i, x = .disconnect i true := by
+    intro x hx; simp only [disconnects, List.mem_map] at hx; obtain ⟨j, _, rfl⟩ := hx
+    exact ⟨rfl, by simp, j, rfl⟩
+  have hmemc : ∀ j, j < k → Ev.connect j ∈ connects k := by
+    intro j hj; simp only [connects, List.mem_map, List.mem_range]; exact ⟨j, hj, rfl⟩
+  rcases hsplit with ⟨m, hpre, hrest⟩ | ⟨m, hck, hrest⟩
+  · -- pre = connects k ++ m, cancel :: disconnects n = m ++ e :: post
+    cases m with
+    | nil =>
+      simp only [List.nil_append, List.cons.injEq] at hrest
+      rw [← hrest.1] at he; simp [Ev.isDisconnect] at he
+    | cons x m =>
+      simp only [List.cons_append, List.cons.injEq] at hrest
+      obtain ⟨hx, hrest⟩ := hrest
+      subst hx
+      have hein : e ∈ disconnects n := by rw [hrest]; simp
+      have hpost : ∀ y ∈ post, y ∈ disconnects n := by intro y hy; rw [hrest]; simp [hy]
+      refine ⟨fun y hy => ⟨(hd y (hpost y hy)).1, (hd y (hpost y hy)).2.1⟩, by simp [hpre],
+        fun j hj => by rw [hpre]; simp [hmemc j hj], (hd e hein).2.2⟩
+  · -- connects k = pre ++ m, m ++ cancel :: … = e :: post : `e` would be a connect
+    cases m with
+    | nil =>
+      simp only [List.nil_append, List.cons.injEq] at hrest
+      rw [hrest.1] at he; simp [Ev.isDisconnect] at he
+    | cons x m =>
+      simp only [List.cons_append, List.cons.injEq] at hrest
+      have : e ∈ connects k := by rw [hck, ← hrest.1]; simp
+      have := hc e this
+      simp [he] at this
+
 end Repe.Lifecycle
